@@ -105,6 +105,8 @@ def table_features(spec, W, m):
         f.append("col_max_width")
     if spec.get("declared") is not None:
         f.append("columns_created_by_rows")
+    if spec.get("width") is not None:
+        f.append("table_width")
     return "+".join(f) or "plain"
 
 
@@ -117,9 +119,16 @@ def wl_tables(ctx, rng, case_no):
     widths_to_try = sorted({m, m + 1, m + 2, rng.randint(m, 200), rng.randint(m, 200), 80, 200})
     widths_to_try = [w for w in widths_to_try if m <= w <= 200]
     _, pr, _, pl = SP.unpack_pad(spec["padding"])
+    own_width = rng.random() if rng.random() < 0.15 else None
     for W in widths_to_try:
         console = consoles.layout_console(W)
         bare = dict(spec, title=None, caption=None)
+        avail = W
+        if own_width is not None:
+            # Table(width=n): the table's own width replaces the available width ("setting a width implies expand")
+            avail = m + int((W - m) * own_width)
+            bare["width"] = avail
+            spec = dict(spec, width=avail)
         table = SP.build(bare)
         lw, lines = visible_lines(console, table)
         wit = {"spec": spec, "width": W, "structural_min": m, "lines": lines[:60]}
@@ -127,7 +136,7 @@ def wl_tables(ctx, rng, case_no):
         # the table's own width vector (fresh object)
         t2 = SP.build(bare)
         extra = t2._extra_width
-        col_w = t2._calculate_column_widths(console, W - extra)
+        col_w = t2._calculate_column_widths(console, avail - extra)
         wit["column_widths"] = col_w
         total = sum(col_w) + extra
         # 1. rectangle
@@ -139,13 +148,13 @@ def wl_tables(ctx, rng, case_no):
             ctx.violation("table-width-differs-from-column-widths-plus-borders:" + feats,
                           dict(wit, line_width=lw[0], expected=total))
             continue
-        if lines and lw[0] > W:
+        if lines and lw[0] > avail:
             ctx.violation("table-wider-than-available:" + feats, dict(wit, line_width=lw[0]))
             continue
         # 2. expand exactness
-        if spec["expand"] and all(c["max_width"] is None for c in spec["columns"]) and lines:
+        if (spec["expand"] or own_width is not None) and all(c["max_width"] is None for c in spec["columns"]) and lines:
             ctx.count("mon.expand_exact")
-            if lw[0] != W:
+            if lw[0] != avail:
                 ctx.violation("expanding-table-not-exactly-available-width:" + feats, dict(wit, line_width=lw[0]))
         # 3. title / caption do not change the body
         if spec["title"] or spec["caption"]:
@@ -207,7 +216,7 @@ def wl_tables(ctx, rng, case_no):
             return max(wmax, 1) + pl + pr
         naturals = [_natural(col, j) for j, col in enumerate(spec["columns"])]
         roomy = (all(n is not None for n in naturals) and not any(c["ratio"] for c in spec["columns"])
-                 and W - extra >= sum(naturals))
+                 and avail - extra >= sum(naturals))
         ctx.hist("roomy", "yes" if roomy else "no")
         for j, col in enumerate(spec["columns"]):
             if col["overflow"] != "fold":
